@@ -205,3 +205,57 @@ func (c *Ctx) overlayOrFile(path string) ([]byte, bool) {
 	b, err := os.ReadFile(path)
 	return b, err == nil
 }
+
+// ---------------------------------------------------------------------------
+// R-BOOTSTRAP-PURE (C16; added after seed C16e): the relational list predicates that are written in Prolog
+// (member/2, select/3 in bootstrap.pl) "yield each tuple of the relation that matches the instantiated
+// arguments" in EVERY mode, partial lists included.  A clause of such a predicate that commits - a cut, an
+// if-then-else, a negation - is correct for the modes its author had in mind and cuts the enumeration short in
+// the others (member(X, [X]) :- !. closes an open tail).  Token-level rule over bootstrap.pl: no clause whose
+// head is one of these predicates contains `!`, `->`, `*->` or `\+`.
+var bootstrapRelations = map[string]bool{"member": true, "select": true}
+
+func ruleBootstrapPure(c *Ctx, r *Report) {
+	const rule = "R-BOOTSTRAP-PURE"
+	desc := "the relational list predicates written in Prolog have pure clauses (no cut, if-then-else or negation)"
+	dir := c.Cfg.Dir
+	if dir == "" {
+		dir = repoDir()
+	}
+	b, ok := c.overlayOrFile(filepath.Join(dir, "bootstrap.pl"))
+	if !ok {
+		r.undecided(rule, "bootstrap.pl", "bootstrap.pl", desc, "bootstrap.pl not found")
+		return
+	}
+	toks := plTokenize(string(b))
+	count := map[string]int{}
+	for _, cl := range plClauses(toks) {
+		if len(cl) < 2 || cl[0].kind != "atom" || !bootstrapRelations[cl[0].text] || cl[1].text != "(" {
+			continue
+		}
+		name := cl[0].text
+		count[name]++
+		key := fmt.Sprintf("bootstrap.pl/%s#%d", name, count[name])
+		where := fmt.Sprintf("bootstrap.pl:%d", cl[0].line)
+		bad := ""
+		for _, t := range cl {
+			switch t.text {
+			case "!", "->", "*->", `\+`:
+				if t.kind != "quoted" && t.kind != "string" {
+					bad = t.text
+				}
+			}
+		}
+		if bad == "" {
+			r.ok(rule, key, where, desc, "no committing construct in the clause", false)
+		} else {
+			r.bad(rule, key, where, desc, "the clause contains `"+bad+"`: it commits in modes where the relation has further tuples (an open list tail is closed, later elements are never tried)")
+		}
+	}
+	for name := range bootstrapRelations {
+		if count[name] == 0 {
+			r.undecided(rule, "bootstrap.pl/"+name, "bootstrap.pl", desc, "no clause for "+name+" found in bootstrap.pl")
+		}
+	}
+	r.analysed(rule, fmt.Sprintf("bootstrap.pl: %d tokens; clauses: member %d, select %d", len(toks), count["member"], count["select"]))
+}
